@@ -24,7 +24,7 @@ PROBES = {
             "call:raise-after-reject", "call:zero-step", "reject=0", "strategy:Constant", "strategy:Adaptive",
             "strategy:TrustRegion", "damping:clamped-min", "damping:clamped-max", "trust:down-shrunk",
             "trust:down-reset", "GN", "group-param", "float32", "scripted"],
-    "C07": ["lm:first-trial", "lm:trial>=2", "gn", "weights:RR", "weights:NRR", "weights:full", "kernel", "triggs",
+    "C07": ["lm:first-trial", "lm:trial>=2", "gn", "weights:RR", "weights:NRR", "weights:full", "weights:refreshed-in-place", "kernel", "triggs",
             "clamp-min-bites", "clamp-max-bites", "frozen-param", "group-param", "vectorize-off", "two-residuals",
             "unused-columns"],
 }
@@ -70,7 +70,7 @@ def generate(seed, tier, prop="C08"):
            "kernel": kern, "corrector": corr,
            "weights": r.choice(["none", "RR", "NRR", "full"]) if (prop == "C07" and not scripted) else
                       r.choice(["none", "none", "RR"]) if not scripted else "none",
-           "weight_at": r.choice(["ctor", "step"]), "vectorize": r.random() < 0.8,
+           "weight_at": r.choice(["ctor", "step"]), "reweight": r.random() < 0.3, "vectorize": r.random() < 0.8,
            "dtype": "f64" if (prop == "C07" or r.random() < 0.6) else "f32",
            "target": (not scripted) and r.random() < 0.3, "spec": spec}
     if cfg["max"] < cfg["min"]:
@@ -138,9 +138,9 @@ def brief(plan):
 def simplify(plan):
     c = plan["config"]
     cands = []
-    for k, v in (("kernel", None), ("weights", "none"), ("target", False), ("dtype", "f64"), ("vectorize", True),
+    for k, v in (("kernel", None), ("weights", "none"), ("reweight", False), ("target", False), ("dtype", "f64"), ("vectorize", True),
                  ("solver", "PINV"), ("reject", 1), ("reject", 0), ("min", 1e-6), ("max", 1e32)):
-        if c[k] != v:
+        if c.get(k) != v:
             cc = dict(c, **{k: v})
             if k == "kernel":
                 cc["corrector"] = "none"
@@ -424,6 +424,11 @@ def execute(plan, prop, out, tr):
     prev_bitwise, prev_ret = True, None
     for o in plan["ops"]:
         ci = o["id"]
+        if weight is not None and c.get("reweight") and ci > 0:
+            # the caller refreshes the weight buffer in place between steps (same storage, new values)
+            for wt in (weight if isinstance(weight, (list, tuple)) else [weight]):
+                wt.mul_(1.0 + 0.5 * ((rng.H(s, "rew", ci) % 7) - 2))
+            out.probe("weights:refreshed-in-place")
         p_s = om.snapshot(model)
         L_s = hloss()
         if not math.isfinite(L_s):
